@@ -496,6 +496,34 @@ def rule_p(idx: ProgramIndex, rep: Report, records: Dict[str, CtorRecord]):
 
 
 # ------------------------------------------------------------------------------------------------ N
+def _none_excluded_on_every_path(fn: FunctionInfo, var: str, use: ast.AST) -> bool:
+    """Flow-sensitive: every CFG path from a definition of `var` to the use passes the non-None branch of a test
+    `var is None` / `var is not None`, or a re-binding made under such a test (`if var is None: var = default`)."""
+    import networkx as nx
+
+    from ..cfg import CFG
+
+    cfg = CFG(fn)
+    un = cfg.node_of(use)
+    if un is None:
+        return False
+    h = cfg.g.copy()
+    for a, b, d in list(h.edges(data=True)):
+        na = cfg.nodes[a]
+        if na.kind == "test" and na.ast is not None and d.get("pol") is not None:
+            t = norm(na.ast)
+            if (t == f"{var} is None" and d["pol"] is False) or (t == f"{var} is not None" and d["pol"] is True):
+                h.remove_edge(a, b)  # beyond this edge var is known to be non-None
+    for nid, nd in cfg.nodes.items():
+        # a re-binding of var from something else (a default) also ends the optional value
+        if nd.kind == "stmt" and isinstance(nd.ast, ast.Assign) and any(isinstance(t, ast.Name) and t.id == var for t in nd.ast.targets) \
+                and not (isinstance(nd.ast.value, ast.Call) and "_to_helper" in norm(nd.ast.value.func)) and nid != un.id and nid in h:
+            h.remove_node(nid)
+    starts = [nid for nid, nd in cfg.nodes.items() if nd.kind == "stmt" and isinstance(nd.ast, ast.Assign)
+              and isinstance(nd.ast.value, ast.Call) and "_to_helper" in norm(nd.ast.value.func)]
+    return bool(starts) and not any(s_ in h and un.id in h and nx.has_path(h, s_, un.id) for s_ in starts)
+
+
 def rule_n(idx: ProgramIndex, rep: Report):
     """Optional results of _to_helper: no dereference and no store into a dtype=/device= slot without a None test."""
     rep.rule("C14.N", "optional (device, dtype) of _to_helper is None-tested before dereference / before it replaces a "
@@ -530,6 +558,18 @@ def rule_n(idx: ProgramIndex, rep: Report):
                   and any(isinstance(t, ast.Subscript) for t in n.targets)):
                 var, bad_kind = n.value.id, f"store `{norm(n)}`"
                 node = n
+            elif isinstance(n, ast.Call) and not (isinstance(n.func, ast.Attribute) and n.func.attr in ("to", "type")):
+                # the raw optional handed to a constructor's dtype= / device= keyword: the constructor completes None
+                # from TORCH's defaults, not from this operator
+                f_ = n.func
+                is_ctor = (isinstance(f_, ast.Attribute) and f_.attr == "__class__") or (
+                    isinstance(f_, ast.Name) and idx.resolve_name(fn.module, f_.id) in idx.classes) or (
+                    isinstance(f_, ast.Call) and isinstance(f_.func, ast.Name) and f_.func.id == "type")
+                if is_ctor:
+                    for k in n.keywords:
+                        if k.arg in ("dtype", "device") and isinstance(k.value, ast.Name) and k.value.id in names:
+                            var, bad_kind = k.value.id, f"constructor keyword `{k.arg}={k.value.id}` in `{short(n, 60)}`"
+                            node = n
             if bad_kind is None:
                 continue
             tests = _guards(fn.node, node)
@@ -548,6 +588,8 @@ def rule_n(idx: ProgramIndex, rep: Report):
                         if (isinstance(first, ast.Compare) and isinstance(first.left, ast.Name) and first.left.id == var
                                 and isinstance(first.comparators[0], ast.Constant) and first.comparators[0].value is None):
                             guarded = True
+            if not guarded:
+                guarded = _none_excluded_on_every_path(fn, var, node)
             sample = {"function": _fname(fn), "use": bad_kind, "none_tested": guarded}
             if guarded:
                 rep.ok("C14.N", sample)
@@ -555,7 +597,7 @@ def rule_n(idx: ProgramIndex, rep: Report):
                 rep.bad("C14.N", Finding(PROP, "C14.N", _fname(fn), norm(node),
                                          f"{bad_kind}: `{var}` comes from _to_helper, which returns None when only the "
                                          "other of device / dtype is given (e.g. op.to(device)) - AttributeError, or the "
-                                         "stored dtype / device is overwritten with None", fn.loc(node)))
+                                         "stored dtype / device is overwritten with None / replaced by torch's default", fn.loc(node)))
 
 
 def rule_p2(idx: ProgramIndex, rep: Report, records: Dict[str, CtorRecord]):
@@ -619,6 +661,9 @@ def rule_g(idx: ProgramIndex, rep: Report):
 
 
 # ------------------------------------------------------------------------------------------------
+CONVERSION_METHODS = {"to", "type", "cpu", "cuda", "double", "float", "half", "clone", "detach", "all_to", "_to_helper"}
+
+
 def rule_c(idx: ProgramIndex, rep: Report):
     """Clone freshness through the ownership engine (E1): the operator returned by clone() holds no tensor object and
     no storage of the receiver, for every definition of clone as resolved on every operator class."""
@@ -679,6 +724,15 @@ def run(idx: ProgramIndex, rep: Report, tier: str, selftest: bool = True):
     rule_n(idx, rep)
     rule_g(idx, rep)
     rule_c(idx, rep)
+    # R: the conversion / copy methods that do not go through cls(*_args, **_kwargs) but rebuild explicitly must bind
+    #    to the constructor and forward every value-bearing flag (same engine as C02.R, restricted to these methods)
+    from .c02 import rule_rebuild
+
+    rule_rebuild(idx, rep, rule="C14.R", prop=PROP, only_methods=CONVERSION_METHODS, floor=15,
+                 title="explicit rebuilds inside to/type/cpu/cuda/double/float/half/clone/detach forward every value-bearing flag")
+    from ..recordmut import report_record_mutations
+
+    report_record_mutations(idx, rep, PROP, "C14.M")
     if selftest:
         from ..selftest import run_fixtures
 
